@@ -140,6 +140,7 @@ type SchedCfg struct {
 	MaxSteps    int    `json:"max_steps,omitempty"`
 	IdleHorizon int64  `json:"idle_horizon_ms,omitempty"` // how far the clock is run forward at quiescence
 	ReadMode    string `json:"read_mode,omitempty"`       // all | one | uniform | mixed
+	PlainErr        bool `json:"plain_err,omitempty"`         // injected errors of operation faults are not net.Errors
 	YieldOnDeadline bool `json:"yield_on_deadline,omitempty"` // deadline calls are scheduling points too (the caller parks before the call takes effect)
 }
 
